@@ -527,6 +527,20 @@ fn huge_geometries(ctx: &Ctx) {
                         errs.push(format!("len() = {}, byte_size() = {:#x}; expected {} pages", bm.len(), bm.byte_size(), want_pages));
                     } else {
                         let mut want: BTreeSet<usize> = early.into_iter().collect();
+                        // page numbers at and beyond the page count - also those whose first byte
+                        // address does not fit in a usize - name no page: marking them changes
+                        // nothing (the last page is still clean here unless the route marked it)
+                        let beyond = [want_pages, want_pages + 1, top / p + 1, (top / p).saturating_mul(2), 1 << 60, 1 << 63, top - 1, top];
+                        for &i in &beyond {
+                            if i >= want_pages {
+                                bm.set_bit(i);
+                            }
+                        }
+                        for k in 0..want_pages.min(70) {
+                            if bm.is_bit_set(k) != want.contains(&k) {
+                                errs.push(format!("page {} set = {} after marking page numbers beyond the page count ({:?}), expected {}", k, bm.is_bit_set(k), beyond, want.contains(&k)));
+                            }
+                        }
                         // the last byte lies in the last page, the first byte in page 0
                         bm.set_addr_range(b - 1, 1);
                         want.insert(want_pages - 1);
@@ -548,6 +562,12 @@ fn huge_geometries(ctx: &Ctx) {
                             want.insert(top / p);
                             if !bm.is_addr_set(top) {
                                 errs.push(format!("the page of address usize::MAX is clean after a mark of that address (variant {})", variant));
+                            }
+                        }
+                        // ... and clearing them clears nothing
+                        for &i in &beyond {
+                            if i >= want_pages {
+                                bm.reset_bit(i);
                             }
                         }
                         for k in 0..want_pages.min(70) {
